@@ -737,4 +737,125 @@ theorem corner_passNode (st : Static) (first : Bool) (a a' : PassSt) (n : AstNod
   rw [hown, e'.banks, ha, hsc]
   rfl
 
+/-- instruction and data-element references are pairwise distinct -/
+structure Uniq (nodes : List AstNode) : Prop where
+  instr : ∀ pre src ref post, nodes = pre ++ .instr src (some ref) :: post → ∀ src', AstNode.instr src' (some ref) ∉ post
+  dataIn : ∀ sz es refs, AstNode.data sz es refs ∈ nodes → ∀ k1 k2, k1 < es.length → k2 < es.length →
+    refs.getD k1 0 = refs.getD k2 0 → k1 = k2
+  dataOut : ∀ pre sz es refs post, nodes = pre ++ .data sz es refs :: post → ∀ sz' es' refs', AstNode.data sz' es' refs' ∈ post →
+    ∀ k k', k < es.length → k' < es'.length → refs.getD k 0 ≠ refs'.getD k' 0
+
+theorem OwnSame.trans {x y z : Defs} {n : AstNode} {k : Nat} (h1 : OwnSame x y n k) (h2 : OwnSame y z n k) : OwnSame x z n k := by
+  unfold OwnSame at *
+  split <;> simp_all
+
+theorem corner_go (st : Static) (first : Bool) (nodes : List AstNode) (hwf : NoClash nodes) (u : Uniq nodes) (D : Defs)
+    (hokD : NodesOK D nodes) (n : AstNode) (hn : n ∈ nodes) :
+    ∀ (fuel k : Nat) (a a1 : PassSt), k + fuel ≤ nodeElems n → passNodes.go st first false n k fuel a = .ok a1 → a1.stable = true →
+      NodesOK a.defs nodes → StEq a1.defs D → (∀ k', k ≤ k' → k' < k + fuel → OwnSame a1.defs D n k') →
+      passNodes.go st false false n k fuel ⟨D, a.it, a.symCtx, true, []⟩ = .ok ⟨D, a1.it, a1.symCtx, true, []⟩ := by
+  intro fuel
+  induction fuel with
+  | zero =>
+    intro k a a1 _ h _ _ _ _
+    simp only [passNodes.go] at h ⊢
+    injection h with h; subst h; rfl
+  | succ f ih =>
+    intro k a a1 hkf h hs hok e1 hown
+    simp only [passNodes.go] at h ⊢
+    cases hp : passNode st first false a n k with
+    | error m => rw [hp] at h; cases h
+    | ok a' =>
+      rw [hp] at h
+      simp only at h
+      have hok' := nodesOK_step st first false nodes hwf a a' n k hn hp hok
+      obtain ⟨s2, e2, _g1, i2, d2⟩ := go_facts st first false nodes hwf n hn f (k + 1) a' a1 h hs hok'
+      have hown' : OwnSame a'.defs D n k := by
+        have h1 : OwnSame a'.defs a1.defs n k := by
+          unfold OwnSame
+          split
+          · rename_i src ref
+            -- an instruction node has one element: nothing follows
+            have hf : f = 0 := by simp [nodeElems] at hkf; omega
+            subst hf
+            simp only [passNodes.go] at h
+            injection h with h; rw [h]
+          · rename_i sz es refs
+            refine d2 _ (fun sz' es' refs' he k' hk1 hk2 heq => ?_)
+            injection he with h1 h2 h3
+            subst h1 h2 h3
+            have hlen : k + (f + 1) ≤ es.length := by simpa [nodeElems] using hkf
+            have := u.dataIn sz es refs hn k' k (by omega) (by omega) heq
+            omega
+          · trivial
+        exact h1.trans (hown k (Nat.le_refl k) (by omega))
+      have step := corner_passNode st first a a' n k D hp s2 (hok n hn) (e2.trans e1) (hokD n hn)
+        (nodeItem_own st a'.defs D (e2.trans e1) n k hown')
+      rw [step]
+      simp only
+      exact ih (k + 1) a' a1 (by omega) h hs hok' e1 (fun k' h1 h2 => hown k' (by omega) (by omega))
+
+theorem corner_passNodes (st : Static) (first : Bool) (nodes : List AstNode) (hwf : NoClash nodes) (u : Uniq nodes) (D : Defs)
+    (hokD : NodesOK D nodes) :
+    ∀ (rest pre : List AstNode) (a a1 : PassSt), nodes = pre ++ rest → passNodes st first false rest a = .ok a1 → a1.stable = true →
+      NodesOK a.defs nodes → StEq a1.defs D → (∀ n ∈ rest, ∀ k', k' < nodeElems n → OwnSame a1.defs D n k') →
+      passNodes st false false rest ⟨D, a.it, a.symCtx, true, []⟩ = .ok ⟨D, a1.it, a1.symCtx, true, []⟩ := by
+  intro rest
+  induction rest with
+  | nil =>
+    intro pre a a1 _ h _ _ _ _
+    simp only [passNodes] at h ⊢
+    injection h with h; subst h; rfl
+  | cons n rest ih =>
+    intro pre a a1 hsplit h hs hok e1 hown
+    rw [passNodes_cons] at h ⊢
+    have hn : n ∈ nodes := by rw [hsplit]; simp
+    have hsub : ∀ m ∈ rest, m ∈ nodes := fun m hm => by rw [hsplit]; simp [hm]
+    cases hg : passNodes.go st first false n 0 (nodeElems n) a with
+    | error e => rw [hg] at h; cases h
+    | ok a' =>
+      rw [hg] at h
+      simp only at h
+      have hs' : a'.stable = true := passNodes_stable_mono st first false rest a' a1 h hs
+      obtain ⟨_g1, _g2, hok', _g3, _g4⟩ := go_facts st first false nodes hwf n hn (nodeElems n) 0 a a' hg hs' hok
+      obtain ⟨_g5, e2, _g6, i2, d2⟩ := passNodes_facts st first false nodes hwf rest a' a1 hsub h hs hok'
+      have hown' : ∀ k', 0 ≤ k' → k' < 0 + nodeElems n → OwnSame a'.defs D n k' := by
+        intro k' _ hk'
+        have h1 : OwnSame a'.defs a1.defs n k' := by
+          unfold OwnSame
+          split
+          · rename_i src ref
+            exact i2 ref (u.instr pre src ref rest hsplit)
+          · rename_i sz es refs
+            refine d2 _ (fun sz' es' refs' hm k2 hk2 heq => ?_)
+            have hlen : k' < es.length := by simpa [nodeElems] using hk'
+            exact u.dataOut pre sz es refs rest hsplit sz' es' refs' hm k' k2 hlen hk2 heq.symm
+          · trivial
+        exact h1.trans (hown n List.mem_cons_self k' (by omega))
+      rw [corner_go st first nodes hwf u D hokD n hn (nodeElems n) 0 a a' (by omega) hg hs' hok (e2.trans e1) hown']
+      simp only
+      exact ih (pre ++ [n]) a' a1 (by rw [hsplit]; simp) h hs hok' e1
+        (fun m hm k' hk' => hown m (List.mem_cons_of_mem _ hm) k' hk')
+
+theorem OwnSame.refl (x : Defs) (n : AstNode) (k : Nat) : OwnSame x x n k := by
+  unfold OwnSame; split <;> trivial
+
+/-- **a stable pass leaves a fixed point of the guessing pass** -/
+theorem corner_resolveOnce (st : Static) (first : Bool) (nodes : List AstNode) (hwf : NoClash nodes) (u : Uniq nodes)
+    (d0 d1 : Defs) (r1 : List String) (hok0 : NodesOK d0 nodes)
+    (h : resolveOnce st nodes first false d0 = .ok (d1, true, r1)) :
+    resolveOnce st nodes false false d1 = .ok (d1, true, []) := by
+  have hokD : NodesOK d1 nodes := pass_establishes_ok st nodes first false d0 d1 true r1 h hwf
+  unfold resolveOnce at h ⊢
+  cases hp : passNodes st first false nodes ⟨d0, initIter d0.banks, [], true, []⟩ with
+  | error e => rw [hp] at h; cases h
+  | ok a1 =>
+    rw [hp] at h
+    injection h with h; injection h with h1 h2; injection h2 with h2 _
+    have e : StEq d0 a1.defs := (passNodes_facts st first false nodes hwf nodes _ a1 (fun _ hm => hm) hp h2 hok0).2.1
+    have hb : d1.banks = d0.banks := by rw [← h1]; exact e.banks
+    have := corner_passNodes st first nodes hwf u d1 hokD nodes [] ⟨d0, initIter d0.banks, [], true, []⟩ a1 rfl hp h2 hok0
+      (by rw [h1]; exact StEq.refl d1) (fun n _ k' _ => by rw [h1]; exact OwnSame.refl d1 n k')
+    rw [hb, this]
+
 end Casm
